@@ -7,7 +7,7 @@ regenerated into lean/TE/Gen/Effects.lean and decided there.  (D) real vs real s
 from __future__ import annotations
 import time
 import torch
-from ..common import Rng, Report, budget, call_real
+from ..common import Rng, Report, budget, call_real, ckey
 from ..registry import SPECS, Spec, fresh_cfg, public_cfg, new_metric, cat_batches, Batch
 from ..engine import observe, same_obs, obs_json, snapshot, snap_equal, fed, gen_stream
 from ..translators import effects as effects_tr
@@ -53,7 +53,7 @@ def check_merge(rep, rng, spec, cfg0):
     before = [full_snap(s) for s in srcs]
     nonempty = sum(1 for s, b in zip(srcs, before) if b[0] != full_snap(new_metric(spec, cfg))[0])
     rep.count(f"class:{spec.name}")
-    rep.case(nontrivial_key=(spec.name, repr(public_cfg(cfg)), "merge", rep.evaluations) if nonempty else None,
+    rep.case(nontrivial_key=(spec.name, repr(public_cfg(cfg)), "merge", ckey(before), ckey(full_snap(tgt))) if nonempty else None,
              sample={"class": spec.name, "cfg": public_cfg(cfg), "sources": k, "kind": "merge-noninterference"} if rep.evaluations % 409 == 0 else None)
     ctx = {"class": spec.name, "cfg": public_cfg(cfg), "sources": k}
     stages = []
@@ -92,7 +92,7 @@ def check_compute(rep, rng, spec, cfg0):
     s0 = snapshot(m)
     plain0 = {k: repr(v) for k, v in vars(m).items() if not isinstance(v, (torch.Tensor, list, dict)) and k != "model"}
     o1 = observe(m); s1 = snapshot(m); o2 = observe(m); s2 = snapshot(m)
-    rep.case(nontrivial_key=(spec.name, repr(public_cfg(cfg)), "compute", rep.evaluations))
+    rep.case(nontrivial_key=(spec.name, repr(public_cfg(cfg)), "compute", ckey(s0)))
     ctx = {"class": spec.name, "cfg": public_cfg(cfg), "first": obs_json(o1), "second": obs_json(o2)}
     if not snap_equal(s0, s1) or not snap_equal(s1, s2):
         rep.violation(f"C11|{spec.name}.compute|state_dict-changed", f"{spec.name}{public_cfg(cfg)}: compute() changed state_dict()", ctx)
@@ -112,7 +112,7 @@ def check_args(rep, rng, spec, cfg0):
     import copy
     nb = copy.deepcopy([a for a in b.args if not isinstance(a, torch.Tensor)])
     b.apply(m)
-    rep.case(nontrivial_key=(spec.name, repr(public_cfg(cfg)), "args", rep.evaluations))
+    rep.case(nontrivial_key=(spec.name, repr(public_cfg(cfg)), "args", ckey(before)))
     for t, (c, st, sh) in zip(tens(b), before):
         if t.shape != sh or t.stride() != st or not torch.equal(t.to(torch.float64).nan_to_num(), c.to(torch.float64).nan_to_num()):
             rep.violation(f"C11|{spec.name}.update|argument-modified", f"{spec.name}{public_cfg(cfg)}: update() modified a caller tensor", {"class": spec.name, "cfg": public_cfg(cfg), "batch": b.describe()})
